@@ -163,6 +163,8 @@ fn ctor_strategy() -> BS<Ctor> {
         // non-integer values close to the UNIX reference (1970 = day 25567 from 1900)
         (2, (25_567i64 - 3_000..25_567 + 3_000, any::<u64>()).prop_map(|(d, r)| d as f64 + (r >> 11) as f64 / (1u64 << 53) as f64).boxed()),
         (1, (20_000i64..50_000, any::<u64>()).prop_map(|(d, r)| d as f64 + (r >> 11) as f64 / (1u64 << 53) as f64).boxed()),
+        // the days that end with a leap second, and the days either side, with a fraction (UTC days of 86 401 s)
+        (2, (1usize..28, -1i64..=1, any::<u64>()).prop_map(|(i, dd, r)| (leap_table()[i].0 / 86_400 - 1 + dd) as f64 + (r >> 11) as f64 / (1u64 << 53) as f64).boxed()),
     ]);
     (days, 0u8..33, -1i64..=1)
         .prop_map(|(d, k, ulps)| {
@@ -258,6 +260,24 @@ fn ctor_oracle(c: &Ctor) -> Verdict {
         let unit_ns = if c.k % 2 == 1 { NS_S } else { NS_D };
         ensure!(count(e.duration) == f64_trunc_i128(x * unit_ns as f64), "constructor {} of {:e}: count {}, want trunc(fl(x*unit)) = {}", c.k, x, count(e.duration), f64_trunc_i128(x * unit_ns as f64));
     }
+    // the constructors that add `x * unit` to a reference: exactly the reference + trunc(fl(x * unit)) (C18's semantics)
+    {
+        let unix0 = 2_208_988_800 * NS_S;
+        let exact: Option<(Epoch, i128, TimeScale)> = match c.k {
+            6 => Some((lib!(Epoch::from_unix_seconds(x)), unix0 + f64_trunc_i128(x * 1e9), TimeScale::UTC)),
+            7 => Some((lib!(Epoch::from_unix_milliseconds(x)), unix0 + f64_trunc_i128(x * 1e6), TimeScale::UTC)),
+            13 => Some((lib!(Epoch::from_tai_seconds(x)), f64_trunc_i128(x * 1e9), TimeScale::TAI)),
+            14 => Some((lib!(Epoch::from_tai_days(x)), f64_trunc_i128(x * NS_D as f64), TimeScale::TAI)),
+            15 => Some((lib!(Epoch::from_utc_seconds(x)), f64_trunc_i128(x * 1e9), TimeScale::UTC)),
+            16 => Some((lib!(Epoch::from_utc_days(x)), f64_trunc_i128(x * NS_D as f64), TimeScale::UTC)),
+            _ => None,
+        };
+        if let Some((e, want, ts)) = exact {
+            if want > DMIN && want < DMAX {
+                ensure!(e.time_scale == ts && count(e.duration) == want, "constructor {} of {:e}: count {} in {:?}, want {} (reference + trunc(fl(x * unit))) in {:?}", c.k, x, count(e.duration), e.time_scale, want, ts);
+            }
+        }
+    }
     let tol = 4.0 * ulp(x.abs().max(cst)) + ns_in_unit + extra;
     // the textual route of the same four views ("MJD x TAI", "JD x UTC", ...) must be as precise
     if c.k <= 3 {
@@ -281,6 +301,15 @@ fn ctor_oracle(c: &Ctor) -> Verdict {
     }
     ensure!((back - x).abs() <= tol, "view {}: built from {:e}, read back {:e} (difference {:e} > {:e})", c.k, x, back, (back - x).abs(), tol);
     Verdict::Pass("constructor-round-trip", true)
+}
+
+// ---------------------------------------------------------------- the published JD / MJD / J2000 constants (enumerated; C05's oracle)
+fn jd_const_enum(_t: Tier, shard: usize, sink: &mut dyn FnMut(crate::props::c05::ConstCase) -> bool) {
+    for k in 30..40usize {
+        if k % SHARDS == shard && !sink(crate::props::c05::ConstCase { k }) {
+            return;
+        }
+    }
 }
 
 // ---------------------------------------------------------------- the shortest numeric texts (enumerated)
@@ -346,6 +375,7 @@ pub fn subs() -> Vec<Box<dyn DynSub>> {
     vec![
         sub(Sub { name: "c17.views", source: Source::Gen(view_strategy, 2_000_000, 10_000_000), oracle: view_oracle, known: no_known, hang_is_violation: false }),
         sub(Sub { name: "c17.constructors", source: Source::Gen(ctor_strategy, 2_000_000, 10_000_000), oracle: ctor_oracle, known: no_known, hang_is_violation: false }),
+        sub(Sub { name: "c17.constants", source: Source::Enum(jd_const_enum, |_| true), oracle: crate::props::c05::const_oracle, known: no_known, hang_is_violation: false }),
         sub(Sub { name: "c17.short_text", source: Source::Enum(short_enum, |_| true), oracle: short_oracle, known: no_known, hang_is_violation: false }),
         crate::props::fuzzsub::fc17(),
     ]
